@@ -49,8 +49,8 @@ def render(chain, module_binds, leaf_lambda):
         reads[emit(ind + 1, 'use(x)')] = sid
         if opt.endswith('bind'):
             binds[emit(ind + 1, 'x = %d' % sid)] = sid
-        if opt.startswith('form:'):
-            text, real = FORMS[opt[5:]]
+        if 'form:' in opt:
+            text, real = FORMS[opt.split('form:')[1]]
             first = None
             for t in text.split('\n'):
                 ln = emit(ind + 1, t)
@@ -246,6 +246,26 @@ def binding_forms_against_symtable(run):
                                 n += 1
                                 run.case = 'f%d-%d' % (depth, n)
                                 check_module(text, chain, reads, binds, headers, path)
+        # a declaration and, in the same scope, a statement that would otherwise make the name local: the declaration wins, and the name
+        # stays visible (the enclosing function / the module binds it before the nested scope is entered)
+        for decl in ('nonlocal', 'global'):
+            for form in ('aug', 'ann-value', 'del', 'for', 'walrus', 'import-as', 'tuple'):
+                for inner_kind in KINDS:
+                    chain = [('def', 'bind'), (inner_kind, '%s+form:%s' % (decl, form))]
+                    text, reads, binds, headers = render(chain, True, False)
+                    try:
+                        compile(text, '<c05>', 'exec')
+                    except SyntaxError:
+                        continue
+                    n += 1
+                    run.case = 'decl-%s-%s-%s' % (decl, form, inner_kind)
+                    check_module(text, chain, reads, binds, headers, path)
+                    if form in ('aug', 'del') and inner_kind == 'def':
+                        view = supp_view(text)
+                        first_inner_read = min(ln for ln, sid in reads.items() if sid == 2)
+                        prove('declared-name-stays-visible', view.get(first_inner_read) is not None,
+                              clause='a name declared %s and then only augmented / deleted in a function is still resolved there (C01) [line %d of]\n%s' % (
+                                  decl, first_inner_read, text), path=path)
         run.case = None
     core.explore(lambda: None, lambda p, out: go(p))
 
